@@ -324,6 +324,11 @@ ANDROID_PROBES = ["IBinder", "FileDescriptor", "ParcelFileDescriptor", "Parcelab
 @plan("C05")
 def c05(run):
     run.add([{"sid": "", "src": "android-tables", "ops": [{"op": "android", "i": 1, "probes": ANDROID_PROBES}]}])
+    # "among the files currently in the parser": every history of 3 (thorough: 4) operations over two ids (importer,
+    # imported parcelable / enum under one key, unparsable text; add, replace, remove, validate), validated after every
+    # step - the kind of a reference follows what the parser holds NOW
+    for s_ in hist_model(run, "hist", 3 if run.tier == "quick" else 4, "core", "empty", nids="2"):
+        run.add([F.hist_scenario(s_, "mc-hist-2ids", full=True)])
     return validation_plan(run, ["res", "shadow"], nt_named_type, 300, 3000,
         "TLC enumerates MC_Validate family 'res' (reference name x import subsets x forward declarations x project "
         "items x placement/nesting) exhaustively within the tier's bound; plus seeded random multi-file projects with "
@@ -381,7 +386,7 @@ def big_interfaces(run, n, sizes=(34, 40, 64)):
 def c09(run):
     run.add(big_interfaces(run, 9 if run.tier == "quick" else 120))
     # codes at the edges of narrower integer types, names that differ only in case, a constant named like a method
-    edge = ["", "0", "1", "65535", "65536", "65537", "2147483647", "2147483648", "4294967295", "4294967294", "16777216", "16777217"]
+    edge = ["", "0", "1", "65535", "65536", "65537", "2147483647", "2147483648", "4294967295", "4294967294", "16777216", "16777217", "16777215", "16777214", "0016777216", "04294967295"]
     names = ["f", "F", "g", "K"]
     for _ in range(400 if run.tier == "quick" else 6000):
         toks = [D.T("package"), D.T("p", "IDENT"), D.T(";"), D.T("interface"), D.T("I", "IDENT"), D.T("{")]
@@ -395,7 +400,8 @@ def c09(run):
                 toks += [D.T("="), D.T(c, "INTEGER")]
             toks.append(D.T(";"))
         toks.append(D.T("}"))
-        run.add([F.project_scenario({"files": [{"id": "a", "toks": toks}], "main": "a"}, "edge-codes")])
+        # (as pieces: the trace spec also compares every method's code with the code written in the source)
+        run.add([piece_scenario([("a", D.layout(toks, run.rng, mode="spaces"))], "edge-codes", validate=True)])
     return validation_plan(run, ["meth"], nt_methods2, 300, 3000,
         "TLC enumerates family 'meth': all method sequences up to length 3 (quick) / 4 (thorough) over 3 names x {no code, "
         "3 codes}, with and without interleaved constants; plus random interfaces with long sequences and large / "
@@ -557,6 +563,10 @@ def c11(run):
     # parser holding the final pairs gives
     for s_ in hist_model(run, "hist", 2 if q else 3, "core", "empty"):
         run.add([F.hist_scenario(s_, "mc-hist-empty-core")])
+    # ... and over two ids, one step deeper: an importer, the imported file, the imported file replaced by one of
+    # another kind under the same key (or removed)
+    for s_ in hist_model(run, "hist", 3 if q else 4, "core", "empty", nids="2"):
+        run.add([F.hist_scenario(s_, "mc-hist-2ids")])
     # files that keep their tree after a recovered syntax error AND get validation diagnostics: the two kinds of
     # diagnostics must come out merged in ascending order
     run.add(mutated_docs(run, 500 if q else 8000, validate=True))
